@@ -142,14 +142,13 @@ def judgeJson (o : JsonObs) : String :=
 structure ProcObs where
   exit : Int
   servedBefore : Nat    -- requests the target had completely answered ≥ margin before the signal was sent
-  started : Nat         -- requests the target had received when the process was gone
+  started : Nat         -- requests the target had received when the process was gone (informative: cancelled shoots also give lines)
   lines : Nat
   bad : Nat
   repro : Nat           -- how many consecutive runs of this case showed the same failure (0 = first run fine)
 
 def judgeProc (o : ProcObs) : String :=
   if o.bad != 0 then s!"fail:malformed:{o.bad} lines of the result file do not decode"
-  else if o.lines > o.started then s!"fail:phantom:{o.lines} lines for {o.started} requests"
   else if o.lines < o.servedBefore then
     if o.repro ≥ 3 then
       s!"fail:signal-loss:{o.servedBefore} requests were answered before the signal, result file has {o.lines} lines (exit {o.exit})"
